@@ -7,7 +7,7 @@ set_option linter.unusedSimpArgs false
 namespace Mqtt.Proofs.Broker
 open Mqtt.Iface.Broker Mqtt.Model.Broker
 
-/-! ### forwards carry RETAIN = 0 (connections) -/
+/-! ### forwards carry RETAIN = 0 (connections; in-process callbacks: `fwdOk0`, `onPublish_out0`) -/
 
 theorem encode_fields (m : Msg) (ctr : Nat) (w : Pub) (m' : Msg) (c' : Nat) (h : m.encode ctr = some (w, m', c')) :
     w.retain = m.p.retain ∧ w.topic = m.p.topic ∧ w.payload = m.p.payload ∧ w.qos = m.p.qos ∧ w.dup = m.p.dup ∧
@@ -91,12 +91,124 @@ theorem fanout_out (subs : List (Nat × Nat)) : ∀ (b : B) (m : Msg),
       · subst ho; simp only [fwdOk]; simpa using hs
       · exact ih _ _ o ho
 
-theorem onPublish_out (b : B) (m : Msg) : ∀ o ∈ (onPublish b m).2.2.1, fwdOk o = true := by
+/-- the outputs of a fan-out over a message object whose RETAIN flag is clear: a
+PUBLISH with RETAIN = 0 to a connection, or an invocation of an in-process
+callback with RETAIN = 0 -/
+def fwdOk0 : Out → Bool
+  | .send d (.publish w) => !w.retain && decide (d < cbBase)
+  | .call cb w => !w.retain && decide (cbBase ≤ cb)
+  | _ => false
+
+theorem fwdOk_of_fwdOk0 (o : Out) (h : fwdOk0 o = true) : fwdOk o = true := by
+  unfold fwdOk0 at h
+  unfold fwdOk
+  split at h <;> simp_all
+
+theorem setQoS_retain (m : Msg) (q : Nat) : (m.setQoS q).p.retain = m.p.retain := rfl
+
+/-- the closure leaves a cleared flag cleared (its own clear/restore is idle then) -/
+theorem deliverConn_retain (b : B) (d : Nat) (m : Msg) (hr : m.p.retain = false) :
+    (deliverConn b d m).2.1.p.retain = false := by
+  unfold deliverConn
+  simp only [hr, Bool.false_eq_true, ↓reduceIte]
+  split
+  · exact hr
+  · split
+    · exact hr
+    · rename_i wire m2 ctr he
+      exact (encode_fields _ _ _ _ _ he).2.2.2.2.2.1.trans hr
+
+theorem deliverConn_out0 (b : B) (d : Nat) (m : Msg) (hd : d < cbBase) :
+    ∀ o ∈ (deliverConn b d m).2.2, fwdOk0 o = true := by
+  unfold deliverConn
+  simp only
+  split
+  · simp
+  · split
+    · simp
+    · rename_i wire m2 ctr he
+      have := (encode_fields _ _ _ _ _ he).1
+      intro o ho
+      simp only [List.mem_singleton] at ho
+      subst ho
+      simp only [fwdOk0, this, hd, decide_true, Bool.and_true]
+      split <;> simp_all
+
+/-- the loop over a message object whose RETAIN flag is clear: every subscriber -
+connection or in-process callback - is handed RETAIN = 0, and the flag is still
+clear afterwards -/
+theorem fanout_out0 (subs : List (Nat × Nat)) : ∀ (b : B) (m : Msg), m.p.retain = false →
+    (∀ o ∈ (fanout b m subs).2.2, fwdOk0 o = true) ∧ (fanout b m subs).2.1.p.retain = false := by
+  induction subs with
+  | nil => intro b m hr; exact ⟨by intro o ho; simp [fanout] at ho, hr⟩
+  | cons sq rest ih =>
+    intro b m hr
+    obtain ⟨s, eqos⟩ := sq
+    have hr1 : (m.setQoS eqos).p.retain = false := hr
+    unfold fanout
+    simp only
+    split
+    · rename_i hs
+      obtain ⟨g1, g2⟩ := ih (deliverConn b s (m.setQoS eqos)).1 (deliverConn b s (m.setQoS eqos)).2.1
+        (deliverConn_retain b s _ hr1)
+      refine ⟨?_, g2⟩
+      intro o ho
+      simp only [List.mem_append] at ho
+      rcases ho with ho | ho
+      · exact deliverConn_out0 b s (m.setQoS eqos) hs o ho
+      · exact g1 o ho
+    · rename_i hs
+      obtain ⟨g1, g2⟩ := ih b (m.setQoS eqos) hr1
+      refine ⟨?_, g2⟩
+      intro o ho
+      simp only [List.mem_append, List.mem_singleton] at ho
+      rcases ho with ho | ho
+      · subst ho
+        simp only [fwdOk0, hr1, Bool.not_false, Bool.true_and]
+        simpa using hs
+      · exact g1 o ho
+
+/-- the message object the live fan-out runs the loop over: RETAIN cleared -/
+theorem loopMsg_retain (m : Msg) :
+    (if m.p.retain then m.setRetain false else m).p.retain = false := by
+  cases h : m.p.retain with
+  | false => simp [h]
+  | true => simp [Msg.setRetain]
+
+theorem fanoutLive_fst (b : B) (m : Msg) (subs : List (Nat × Nat)) :
+    (fanoutLive b m subs).1 = (fanout b (if m.p.retain then m.setRetain false else m) subs).1 := rfl
+
+theorem fanoutLive_outs (b : B) (m : Msg) (subs : List (Nat × Nat)) :
+    (fanoutLive b m subs).2.2 = (fanout b (if m.p.retain then m.setRetain false else m) subs).2.2 := rfl
+
+theorem fanoutLive_state (subs : List (Nat × Nat)) (b : B) (m : Msg) :
+    (fanoutLive b m subs).1.topics = b.topics ∧ (fanoutLive b m subs).1.conns = b.conns ∧
+    (fanoutLive b m subs).1.sess = b.sess :=
+  fanout_state subs b _
+
+/-- every output of the live fan-out - to a connection or to an in-process
+callback - carries RETAIN = 0; the object has its flag back afterwards -/
+theorem fanoutLive_out0 (subs : List (Nat × Nat)) (b : B) (m : Msg) :
+    (∀ o ∈ (fanoutLive b m subs).2.2, fwdOk0 o = true) ∧ (fanoutLive b m subs).2.1.p.retain = m.p.retain := by
+  obtain ⟨h1, h2⟩ := fanout_out0 subs b _ (loopMsg_retain m)
+  refine ⟨h1, ?_⟩
+  show (if m.p.retain then (fanout b (if m.p.retain then m.setRetain false else m) subs).2.1.setRetain true
+        else (fanout b (if m.p.retain then m.setRetain false else m) subs).2.1).p.retain = m.p.retain
+  cases hr : m.p.retain with
+  | true => simp [Msg.setRetain]
+  | false => rw [hr] at h2; simpa using h2
+
+/-- every output of `onPublish` - to a connection or to an in-process callback -
+carries RETAIN = 0 -/
+theorem onPublish_out0 (b : B) (m : Msg) : ∀ o ∈ (onPublish b m).2.2.1, fwdOk0 o = true := by
   unfold onPublish
   simp only
   split
   · simp
-  · exact fanout_out _ _ _
+  · exact (fanoutLive_out0 _ _ _).1
+
+theorem onPublish_out (b : B) (m : Msg) : ∀ o ∈ (onPublish b m).2.2.1, fwdOk o = true :=
+  fun o ho => fwdOk_of_fwdOk0 o (onPublish_out0 b m o ho)
 
 /-- no PUBLISH with RETAIN = 1 written to a connection -/
 def noRetainSend : Out → Bool
@@ -247,4 +359,152 @@ theorem step_out (b : B) (e : Ev) (he : isSubscribeEv e = false) : ∀ o ∈ (st
   | srvPub p => exact srvPub_out b p
   | srvSub cb f q => exact srvSub_out b cb f q
   | srvUnsub cb f => exact srvUnsub_out b cb f
+
+/-! ### in-process callbacks: no live forward with RETAIN = 1 either -/
+
+/-- no in-process callback invoked with RETAIN = 1 -/
+def noRetainCall : Out → Bool
+  | .call _ w => !w.retain
+  | _ => true
+
+theorem noRetainCall_of_fwdOk0 (o : Out) (h : fwdOk0 o = true) : noRetainCall o = true := by
+  unfold fwdOk0 at h
+  unfold noRetainCall
+  split at h <;> simp_all
+
+theorem send_noCall (b : B) (c : Nat) (p : Packet) : ∀ o ∈ send b c p, noRetainCall o = true := by
+  intro o ho
+  unfold send at ho
+  split at ho
+  · simp only [List.mem_singleton] at ho
+    subst ho
+    rfl
+  · cases ho
+
+theorem releaseAll_noCall (l : List QEntry) : ∀ b : B, ∀ o ∈ (releaseAll b l).2, noRetainCall o = true := by
+  induction l with
+  | nil => intro b o ho; simp [releaseAll] at ho
+  | cons e rest ih =>
+    intro b o ho
+    unfold releaseAll at ho
+    simp only [List.mem_append] at ho
+    rcases ho with ho | ho
+    · exact noRetainCall_of_fwdOk0 o (onPublish_out0 _ _ o ho)
+    · exact ih _ o ho
+
+theorem stop_noCall (b : B) (c : Nat) : ∀ o ∈ (stop b c).2, noRetainCall o = true := by
+  unfold stop
+  split
+  · simp
+  · split
+    · simp
+    · simp only
+      split
+      · simp [noRetainCall]
+      · split
+        · split
+          · simp [noRetainCall]
+          · intro o ho
+            simp only [List.mem_cons] at ho
+            rcases ho with rfl | ho
+            · rfl
+            · exact noRetainCall_of_fwdOk0 o (onPublish_out0 _ _ o ho)
+        · simp [noRetainCall]
+
+theorem noCall_of_isPublishTo (c : Nat) (o : Out) (h : isPublishTo c o = true) : noRetainCall o = true := by
+  unfold isPublishTo at h
+  unfold noRetainCall
+  split at h <;> simp_all
+
+theorem packet_noCall (b : B) (c : Nat) (p : Packet) : ∀ o ∈ (packet b c p).2, noRetainCall o = true := by
+  unfold packet
+  split
+  · simp
+  · split
+    · simp
+    · split
+      · simp
+      · rename_i cn _ s hs
+        cases p with
+        | publish pub =>
+          simp only
+          split
+          · exact send_noCall _ _ _
+          · split
+            · intro o ho
+              simp only [List.mem_append] at ho
+              rcases ho with ho | ho
+              · exact send_noCall _ _ _ o ho
+              · exact noRetainCall_of_fwdOk0 o (onPublish_out0 _ _ o ho)
+            · intro o ho
+              exact noRetainCall_of_fwdOk0 o (onPublish_out0 _ _ o ho)
+        | pubrel id =>
+          simp only
+          intro o ho
+          simp only [List.mem_append] at ho
+          rcases ho with ho | ho
+          · exact releaseAll_noCall _ _ o ho
+          · exact send_noCall _ _ _ o ho
+        | subscribe id ts =>
+          simp only
+          intro o ho
+          simp only [List.mem_append] at ho
+          rcases ho with ho | ho
+          · exact send_noCall _ _ _ o ho
+          · exact noCall_of_isPublishTo c o ((sendRetained_shape c _ _).2.2.2 o ho)
+        | unsubscribe id ts => exact send_noCall _ _ _
+        | pubrec id => exact send_noCall _ _ _
+        | pingreq => exact send_noCall _ _ _
+        | disconnect => exact stop_noCall _ _
+        | puback _ => simp
+        | pubcomp _ => simp
+        | pingresp => simp
+        | suback _ _ => simp
+        | unsuback _ => simp
+        | connack _ _ => simp
+        | connectAgain => simp
+
+theorem first_noCall (b : B) (c : Nat) (f : First) (a : Bool) : ∀ o ∈ (first b c f a).2, noRetainCall o = true := by
+  unfold first
+  split
+  · simp [noRetainCall]
+  · simp [noRetainCall]
+  · split
+    · simp [noRetainCall]
+    · simp [noRetainCall]
+    · split
+      · simp [noRetainCall]
+      · simp [noRetainCall]
+
+theorem srvPub_noCall (b : B) (p : Pub) : ∀ o ∈ (srvPub b p).2, noRetainCall o = true := by
+  unfold srvPub
+  simp only
+  intro o ho
+  split at ho
+  · exact noRetainCall_of_fwdOk0 o (onPublish_out0 _ _ o ho)
+  · simp only [List.mem_append, List.mem_singleton] at ho
+    rcases ho with ho | rfl
+    · exact noRetainCall_of_fwdOk0 o (onPublish_out0 _ _ o ho)
+    · rfl
+
+theorem srvUnsub_noCall (b : B) (cb : Nat) (f : Bytes) : ∀ o ∈ (srvUnsub b cb f).2, noRetainCall o = true := by
+  unfold srvUnsub
+  simp only
+  split <;> simp [noRetainCall]
+
+/-- the in-process `Subscribe` (whose retained delivery legitimately carries RETAIN = 1) -/
+def isSrvSubEv : Ev → Bool
+  | .srvSub _ _ _ => true
+  | _ => false
+
+/-- whatever the event, other than the in-process `Subscribe` itself: no in-process
+callback is invoked with RETAIN = 1 -/
+theorem step_noCall (b : B) (e : Ev) (he : isSrvSubEv e = false) : ∀ o ∈ (step b e).2, noRetainCall o = true := by
+  cases e with
+  | first c f a => exact first_noCall b c f a
+  | packet c p => exact packet_noCall b c p
+  | close c => exact stop_noCall b c
+  | srvPub p => exact srvPub_noCall b p
+  | srvSub cb f q => simp [isSrvSubEv] at he
+  | srvUnsub cb f => exact srvUnsub_noCall b cb f
 end Mqtt.Proofs.Broker
